@@ -223,9 +223,22 @@ fn mutate_node(node: &mut Node, rng: &mut Rng) {
             });
         }
         6 => {
-            // digit overflow: far more BCD digits than any integer can hold
-            let n = 1 + rng.below(24) as usize;
-            node.payload = Payload::Leaf(vec![0x99; n]);
+            // digit overflow: far more BCD digits than any integer can hold, or just above the maximum of a width
+            if rng.chance(1, 2) {
+                let n = 1 + rng.below(24) as usize;
+                node.payload = Payload::Leaf(vec![0x99; n]);
+            } else {
+                let max = *rng.pick(&[255u128, 65535, u32::MAX as u128, u64::MAX as u128]);
+                let mut b = bcd_bytes(max + rng.below(120) as u128);
+                for _ in 0..rng.below(3) {
+                    b.insert(0, 0);
+                }
+                if rng.chance(1, 4) {
+                    let l = b.len() - 1;
+                    b[l] |= 0x0f;
+                }
+                node.payload = Payload::Leaf(b);
+            }
         }
         7 => {
             // F nibbles / non-digits
